@@ -74,6 +74,14 @@ def setLastPerson (ps : List Person) (f : Person → Person) : List Person :=
   | [] => []
   | p :: r => (f p :: r).reverse
 
+def updLast {α} (xs : List α) (f : α → α) : List α :=
+  match xs.reverse with
+  | [] => []
+  | x :: r => (f x :: r).reverse
+
+def updLastSpec (ds : List (String × List DepSpec)) (f : DepSpec → DepSpec) : List (String × List DepSpec) :=
+  updLast ds fun d => (d.1, updLast d.2 f)
+
 def boolOf (s : String) : Bool := s = "1"
 
 /-- key/value pairs → configuration input.  A `spdx` entry is five consecutive values after the key. -/
@@ -84,6 +92,8 @@ def cfgOfArgs : List String → CfgIn → Option CfgIn
   | "p.urls" :: k :: v :: rest, c => cfgOfArgs rest { c with proj := { c.proj with urls := c.proj.urls ++ [(k, v)] } }
   | "t.urls" :: k :: v :: rest, c =>
     cfgOfArgs rest { c with tool := { c.tool with urls := some ((c.tool.urls.getD []) ++ [(k, v)]) } }
+  | "t.dep.kv" :: k :: v :: rest, c =>
+    cfgOfArgs rest { c with tool := { c.tool with dependencies := updLastSpec c.tool.dependencies (fun sp => { sp with kvs := sp.kvs ++ [(k, v)] }) } }
   | "p.readme.file" :: p :: ct :: rest, c => cfgOfArgs rest { c with proj := { c.proj with readme := some (.file p ct) } }
   | "p.readme.text" :: t :: ct :: rest, c => cfgOfArgs rest { c with proj := { c.proj with readme := some (.text t ct) } }
   | [_], _ => none
@@ -121,6 +131,11 @@ def cfgOfArgs : List String → CfgIn → Option CfgIn
       else if k = "t.documentation" then some { c with tool := { t with documentation := some v } }
       else if k = "t.urls.empty" then some { c with tool := { t with urls := some (t.urls.getD []) } }
       else if k = "t.readme" then some { c with tool := { t with readmes := t.readmes ++ [v] } }
+      else if k = "p.optdep" then some { c with proj := { p with optionalDependencyNames := p.optionalDependencyNames ++ [v] } }
+      else if k = "t.extraname" then some { c with tool := { t with extraNames := t.extraNames ++ [v] } }
+      else if k = "t.dep" then some { c with tool := { t with dependencies := t.dependencies ++ [(v, [])] } }
+      else if k = "t.dep.spec" then some { c with tool := { t with dependencies := updLast t.dependencies (fun d => (d.1, d.2 ++ [{}])) } }
+      else if k = "t.dep.extra" then some { c with tool := { t with dependencies := updLastSpec t.dependencies (fun sp => { sp with extras := sp.extras ++ [v] }) } }
       else if k = "readme.stored" then some { c with readmeStored := some v }
       else if k = "extra" then some { c with extras := c.extras ++ [v] }
       else if k = "requires_dist" then some { c with requiresDist := c.requiresDist ++ [v] }
@@ -152,6 +167,10 @@ def handleMeta (op : String) (args : List String) : Option String :=
       | .ok m =>
         let items := dumpMeta m
         "ok\t" ++ toString items.length ++ "\t" ++ joinWith "\t" (items.map encode) ++ "\t" ++ renderReply m
+  | "vsl", kvs =>
+    some <| match cfgOfArgs kvs {} with
+    | none => "bad-arg"
+    | some c => joinWith "\t" ("ok" :: (validateSingleLine c.proj c.tool).map encode)
   | "authorsplit", [s] =>
     some <| match authorMatch s.toList with
     | none => "nomatch"
